@@ -3,7 +3,7 @@
 use crate::engine::{boxed, CheckResult, Ctx, Failure, Prop, Run, Tier};
 use crate::oracles::{delivery, faultless, reader_error, recycling, termination};
 use crate::par::{execute_mock, run_under, Consumer, Evt, Obs, ParCfg, Sched, SharedObs};
-use crate::real::{check_real, execute_real, RealCfg, RealObs, SharedReal};
+use crate::real::{check_lead, check_real, execute_real, RealCfg, RealObs, SharedReal};
 use crate::util::h64;
 use proptest::collection::vec;
 use proptest::prelude::*;
@@ -265,10 +265,10 @@ impl Prop for Real {
         let s = self.schedules;
         let cfg = (
             (any::<bool>(), if kind == Kind::C16 { 0u8..80 } else { 0u8..14 }, vec(prop_oneof![5 => 0u8..30, 1 => 30u8..255], 1..5), 3usize..48, 0u8..6, prop::option::weighted(0.5, 1u8..64)),
-            (1u32..=3, 1usize..=3, 0u8..4, 0u8..3),
+            (1u32..=3, 1usize..=3, 0u8..4, 0u8..3, prop_oneof![2 => Just(0u8), 1 => 1u8..4, 1 => 4u8..12]),
             (prop::option::weighted(0.5, 0u8..14), prop::option::weighted(0.4, 0u16..12), any::<bool>(), prop::option::weighted(0.5, 0u16..10), prop::option::weighted(0.5, 0u8..4)),
         )
-            .prop_map(move |((fastq, n_records, sizes, cap, chunk, policy_t), (n_threads, queue_len, api, work_yields), (bad, stop, ri, di, si))| {
+            .prop_map(move |((fastq, n_records, sizes, cap, chunk, policy_t), (n_threads, queue_len, api, work_yields, consumer_yields), (bad, stop, ri, di, si))| {
                 let mut c = RealCfg {
                     fastq,
                     n_records,
@@ -285,6 +285,7 @@ impl Prop for Real {
                     rset_init_fail_at: None,
                     work_yields,
                     policy_t: if api == 2 { policy_t } else { None },
+                    consumer_yields,
                 };
                 match kind {
                     Kind::C07 | Kind::C16 => {}
@@ -326,6 +327,9 @@ impl Prop for Real {
             execute_real(&cfg2, &obs);
             let o = std::mem::take(&mut *obs.lock().unwrap());
             let mut verdict = check_real(&cfg2, &o);
+            if verdict.is_ok() && kind == Kind::C16 {
+                verdict = check_lead(&cfg2, &o);
+            }
             if verdict.is_ok() && kind == Kind::C16 {
                 // record-set buffers do not grow per batch
                 let max_cap = o.set_buf_caps.iter().copied().max().unwrap_or(0);
